@@ -278,6 +278,8 @@ func (c *Ctx) ruleRebuilt(rule string) {
 					c.R.Ok(rule, k, pos, "read of an unexported field of a described type", "under a branch that established "+guardAt(b, fa.X)+" != nil: the value was built by a constructor, which fills these fields together")
 				case looksAtUnfilled(b, fa.X) != "":
 					c.R.Ok(rule, k, pos, "read of an unexported field of a described type", "the function tests "+looksAtUnfilled(b, fa.X)+" against nil on the way here (either outcome): it distinguishes the unfilled case itself")
+				case handsOutWithVerdict(fn, ld):
+					c.R.Ok(rule, k, pos, "read of an unexported field of a described type", "the function hands the value out together with the outcome of its comparison with nil (a result of every return that carries the value): it distinguishes the unfilled case itself")
 				case guardedByCallers(fn, 0):
 					c.R.Ok(rule, k, pos, "read of an unexported field of a described type", "every call site of this function is under a branch that established that a constructor-filled field of the receiver is non-nil")
 				default:
@@ -288,5 +290,43 @@ func (c *Ctx) ruleRebuilt(rule string) {
 		}
 	}
 	c.R.Note("%s: %d described struct types with unexported nilable fields; %d reads examined", rule, len(described), n)
+}
+
+// handsOutWithVerdict: the loaded value is used only in comparisons with nil and as a result of returns that also
+// carry, as another result, such a comparison of the same value (`return v, v != nil`).
+func handsOutWithVerdict(fn *ssa.Function, ld *ssa.UnOp) bool {
+	refs := ld.Referrers()
+	if refs == nil {
+		return false
+	}
+	returned := false
+	for _, r := range *refs {
+		switch x := r.(type) {
+		case *ssa.DebugRef:
+		case *ssa.BinOp:
+			if _, _, isNil := core.NilCmp(x); !isNil {
+				return false
+			}
+		case *ssa.Return:
+			verdict := false
+			for _, res := range x.Results {
+				if bin, ok := res.(*ssa.BinOp); ok {
+					if v, _, isNil := core.NilCmp(bin); isNil && v == ssa.Value(ld) {
+						verdict = true
+					}
+				}
+			}
+			if !verdict {
+				return false
+			}
+			returned = true
+		default:
+			return false
+		}
+	}
+	return returned
+}
+
+func unusedRebuilt() {
 	_ = strings.TrimSpace
 }
